@@ -15,7 +15,8 @@ their errors are environment events (the guarantee side of the consumer properti
 `Coordinator.stop` waiting for the LeaveGroup reply.  Cancel outcomes are the real client's
 (harness/lib/client_iface.md): a cancelled coordinator request fails with Twisted's `CancelledError`,
 a cancelled `load_metadata_for_topics` SUCCEEDS with `None`, a cancelled coordinator look-up fails
-with `CancelledError`, a cancelled `_load_topic_partitions` fails with a `KafkaError`.
+with `CancelledError`, a cancelled `_load_topic_partitions` fails with a `KafkaError` — or, when the client call is sleeping
+before a retry, with `CancelledError` (`Cfg.partsCancelSleeping`).
 
 Twisted facts used: a `DelayedCall` object is truthy after it fired or was cancelled
 (`_rejoin_wait_dc` is a reference, not an "active" flag); cancelling an `inlineCallbacks` Deferred
@@ -31,6 +32,11 @@ structure Cfg where
   retryBackoffMs : Nat
   fatalBackoffMs : Nat
   heartbeatMs : Nat
+  /-- environment: when the group cancels `_load_topic_partitions` the client call is sleeping
+      before a retry (the cancellation then surfaces as Twisted's CancelledError) rather than
+      waiting for its metadata request (KafkaError).  A member is stopped at most once, so one
+      choice per run covers every history. -/
+  partsCancelSleeping : Bool := false
   deriving Repr, DecidableEq
 
 def Cfg.default : Cfg :=
@@ -313,7 +319,8 @@ def cancelJoin (cfg : Cfg) (s : St) : Out :=
     | .join =>
       andThen ({ s with jpc := .idle }, [.cancelReq .joinR]) fun s => (rejoinCore cfg s .cancelled).1
     | .loadParts _ =>
-      andThen (s, [.cancelReq .partsR]) fun s => (escapeCore cfg s .kafkaUnavailable).1
+      andThen (s, [.cancelReq .partsR]) fun s =>
+        (escapeCore cfg s (if cfg.partsCancelSleeping then .cancelled else .kafkaUnavailable)).1
     | .sync =>
       andThen ({ s with jpc := .idle }, [.cancelReq .syncR]) fun s => (rejoinCore cfg s .cancelled).1
   else (s, [])
